@@ -14,7 +14,7 @@ from vlib import core
 
 THEOREMS = ["C03_default_of_spec", "C03_resolution", "C03_default_of_total", "C03_compute_partition",
             "C03_compute_targets", "C03_uniform",
-            "C03_default_never_inherits", "C03_spec", "C03_resolves_iff"]
+            "C03_default_never_inherits", "C03_empty_is_defined", "C03_spec", "C03_resolves_iff"]
 PROPS = "theories/Props/C03.v"
 REGISTRY = {
     "level": "proof",
@@ -79,8 +79,8 @@ def exhaustive_project(rng, n, inherits_roles, group_sample):
     if rng.random() < 0.3:
         rng.shuffle(listed)          # the default is not always written first
     inh = {names[a]: names[b] for a, b in inherits_roles.items()}
-    return {"default": names[0], "locales": listed, "inherits": inh, "namespaces": None,
-            "files": {"-/" + nm: ["G", files[nm]] for nm in names}, "roles": names}
+    return mc.decorate(rng, {"default": names[0], "locales": listed, "inherits": inh, "namespaces": None,
+                             "files": {"-/" + nm: ["G", files[nm]] for nm in names}, "roles": names}, prob=0.2)
 
 
 def random_project(rng, allow_errors=True):
@@ -110,7 +110,8 @@ def random_project(rng, allow_errors=True):
     elif c < 0.3 and n > 1:
         listed = listed[1:]          # the default left out of `locales`, but never named by `inherits` values here
         inh = {k: v for k, v in inh.items() if v != names[0]}
-    return {"default": names[0], "locales": listed, "inherits": inh, "namespaces": nss, "files": files, "roles": names}
+    p = {"default": names[0], "locales": listed, "inherits": inh, "namespaces": nss, "files": files, "roles": names}
+    return mc.decorate(rng, p) if rng.random() < 0.6 else p
 
 
 def corpus():
@@ -132,6 +133,14 @@ def corpus():
                     [{"g": ["G", {"h": ["G", {"x": ["L", 1]}], "y": ["L", 2]}]},
                      {"g": ["G", {"h": ["G", {"x": ["L", 3]}]}]},
                      {}]))
+    # defined but empty: fr's tail is "$t(suffix)" with suffix "", fr-CA inherits fr and has no tail: both use fr's
+    # empty text, not en's "!" (seeded change C03e); plain "" and a component with empty children as controls
+    sfx = lambda pay, txt=None: ["L", pay] if txt is None else ["L", pay, txt]      # noqa: E731
+    out.append(proj(["en", "fr", "fr-CA"], {"fr-CA": "fr"},
+                    [{"suffix": sfx(1), "tail": sfx(1, "$t(suffix)"), "e": sfx(2), "c": sfx(4)},
+                     {"suffix": sfx(mc.EMPTY, ""), "tail": sfx(mc.EMPTY, "$t(suffix)"), "e": sfx(mc.EMPTY, ""), "c": sfx(mc.OTHER, "<b></b>")},
+                     {"suffix": ["N"]}]))
+    out.append(proj(["en", "fr"], {}, [{"suffix": sfx(mc.EMPTY, ""), "tail": sfx(mc.EMPTY, "$t(suffix)")}, {"suffix": sfx(5)}]))
     return out
 
 
